@@ -226,7 +226,10 @@ def _post_gpe(mode, w, parabolic):
         c.oblige('post:added-extrema-lie-beyond-both-ends', z3.And(locs.elem(off - 1) < L(0), locs.elem(off + K) > L(K - 1)), 'post')
         zero = z3.IntVal(0) if locs.kind == 'i' else z3.RealVal(0)
         Nn = N if locs.kind == 'i' else z3.ToReal(N)
-        c.oblige('post:both-record-ends-covered', z3.And(locs.elem(z3.IntVal(0)) < zero, locs.elem(n - 1) >= Nn), 'post')
+        # beyond the first sample (index 0) and beyond the last one (index N - 1): the same rule at both ends.  (For integer locations `> N - 1` is
+        # `>= N`, the bound the code used to test; for fractional - parabolic - locations the old bound was one sample stricter on the right than on
+        # the left, which broke time reversal: defect D25.)
+        c.oblige('post:both-record-ends-covered', z3.And(locs.elem(z3.IntVal(0)) < zero, locs.elem(n - 1) > Nn - 1), 'post')
     return post
 
 
@@ -419,10 +422,23 @@ def replay(w):
                 exp_m = src[base] * (-1 if mode == 'troughs' else 1)
                 if inner.tolist() != base or not np.array_equal(np.asarray(mags[off:off + K]), exp_m):
                     return True, 'interior extrema altered by padding: %s / %s, detected %s / %s' % (inner.tolist(), list(mags[off:off + K]), base, exp_m.tolist())
-            if pad and not (locs[0] < 0 and locs[-1] >= n):
+            if pad and not (locs[0] < 0 and locs[-1] > n - 1):
                 return True, 'padded extrema do not cover both record ends: first %s last %s, N=%d' % (locs[0], locs[-1], n)
             if pad and not (np.all(locs[:off] < inner[0]) and np.all(locs[off + K:] > inner[-1])):
                 return True, 'padding added extrema inside the detected ones: %s' % list(locs)
+            if pad:
+                # default magnitude rule (median over the ONE nearest extremum): every added extremum, of every padding round, carries the
+                # magnitude of the first / last detected one
+                mg = np.asarray(mags, float)
+                if not (np.all(mg[:off] == mg[off]) and np.all(mg[off + K:] == mg[off + K - 1])):
+                    return True, 'padded magnitudes %s are not those of the first / last detected extremum (%s / %s) (x=%s mode=%s pad=%d)' % (np.round(mg, 6).tolist(), mg[off], mg[off + K - 1], x.tolist(), mode, pad)
+                # default location rule: odd reflection, i.e. the added locations mirror the detected ones about the first / last detected extremum
+                lc = np.asarray(locs, float)
+                left, right = lc[:off][::-1], lc[off + K:]
+                full = lc[off:off + K]
+                single_round = off == min(pad, K) and off <= K - 1
+                if single_round and not (np.allclose(left, 2 * full[0] - full[1:1 + len(left)]) and np.allclose(right, 2 * full[-1] - full[::-1][1:1 + len(right)])):
+                    return True, 'padded locations %s are not the detected ones %s mirrored about the first / last detected extremum (x=%s mode=%s pad=%d)' % (lc.tolist(), full.tolist(), x.tolist(), mode, pad)
             return False, 'ok'
         if kind == 'envelope':
             mode, pad, par, method = w['mode'], w['pad'], w['parabolic'], w['method']
